@@ -29,8 +29,13 @@ def prepare(ctx):
     return h
 
 
+# theory files the tie files of coq/ties need compiled (they are not in the cone of Props/Cxx.v)
+TIE_THEORIES = {"c03": ["GConfGenProofs"], "c16": ["GConfGenProofs", "TmplGenPrims", "TmplReProofs", "TmplProofs"],
+                "c10": ["GConfCacheGenPrims"]}
+
+
 def build(ctx, cmd, race=False, judge="GConfJudge"):
-    ok, log = ctx.coq_build(["theories/%s.vo" % judge])
+    ok, log = ctx.coq_build(["theories/%s.vo" % t for t in [judge] + TIE_THEORIES.get(cmd, [])])
     if not ok:
         ctx.report({"unchecked": "build of the judgement file %s.v" % judge, "detail": log[-3000:]},
                    {"kind": "coq_build"}, failing_input=False)
@@ -174,3 +179,125 @@ def corpus_run(ctx, pid):
         for i in inputs:
             f.write(json.dumps(i) + "\n")
     return ("corpusfiles", ["-mode", "replay", "-in", path])
+
+
+# ---------------------------------------------------------------- report ordering
+def harness_cases_seed(ctx, binpath, runs, seed, tagsuffix="", timeout=1800):
+    """vlib.harness_cases with an explicit seed (for the widened run)"""
+    terms, jsons = [], []
+    for tag, args in runs:
+        prefix = os.path.join(ctx.scratch, "cases_%s%s" % (tag, tagsuffix))
+        rc, out = vlib.sh([binpath, "-seed", str(seed), "-out", prefix] + [str(a) for a in args], timeout=timeout)
+        if rc != 0:
+            return terms, jsons, "harness %s failed (rc %d):\n%s" % (tag, rc, out[-3000:])
+        t = open(prefix + ".cases").read().splitlines()
+        j = [json.loads(l) for l in open(prefix + ".jsonl").read().splitlines()]
+        if len(t) != len(j):
+            return terms, jsons, "harness %s wrote %d terms but %d json cases" % (tag, len(t), len(j))
+        terms += t
+        jsons += j
+    return terms, jsons, None
+
+
+class Deferred:
+    """Things that broke without a concrete failing input at hand (proof obligation, translator tie,
+    verdict-2 cases).  They are reported — with `no-failing-input-found` — only when the run,
+    widened if necessary, finds no verdict-1 case; otherwise the verdict-1 cases get the replay
+    slots and what else broke is recorded in their replay files and in the evidence."""
+
+    def __init__(self, ctx):
+        self.ctx = ctx
+        self.items = []
+
+    def add(self, replay, features):
+        self.items.append((replay, features))
+
+    def obligations(self):
+        ok, detail = self.ctx.proof_obligations()
+        self.ctx.log("proof obligations:", "OK" if ok else "BROKEN", "-", detail.splitlines()[0])
+        if not ok:
+            self.add({"unchecked": "theorem file Props/%s.v" % self.ctx.pid, "detail": detail},
+                     {"kind": "proof_obligation"})
+        return ok
+
+    def names(self):
+        return [r.get("unchecked", "?") for r, _ in self.items]
+
+
+def correspondence(ctx, d, binp, spec):
+    """Run, judge and report.  spec: header, case_type, judge, nontrivial, runs, widen (factor ->
+    runs), shard, classify (json, code) -> 'fail' | 'model' | 'oracle' | 'info', shape, features,
+    view, to_input, variants, size, verdict (code -> text), minimise (bool fn of json), min_kw.
+    Order of reports: verdict-1 cases first (they get the replay slots, minimised); deferred
+    items and verdict-2/oracle cases only if no verdict-1 case exists after a widened run.
+    Returns (terms, jsons, bad, nontrivial_count, info_count, widened) or None on a harness error."""
+    def run_and_judge(runs, seed, suffix):
+        terms, jsons, err = harness_cases_seed(ctx, binp, runs, seed, suffix)
+        if err:
+            ctx.report({"unchecked": "harness run", "detail": err}, {"kind": "harness"}, failing_input=False)
+            return None
+        bad, nt, err = ctx.judge_cases(spec["header"], spec["case_type"], spec["judge"], terms,
+                                       shard=spec["shard"], nontrivial=spec.get("nontrivial"),
+                                       tag="cases" + suffix)
+        if err:
+            ctx.report({"unchecked": "in-kernel evaluation of the correspondence", "detail": err},
+                       {"kind": "coq_eval"}, failing_input=False)
+            return None
+        return terms, jsons, bad, nt
+
+    r = run_and_judge(spec["runs"], ctx.seed, "")
+    if r is None:
+        return None
+    terms, jsons, bad, nt = r
+    ctx.log("harness ran: %d cases" % len(jsons))
+    cls = lambda js, b: spec["classify"](js[b[0]], b[1])
+    fails = [(jsons, b) for b in bad if cls(jsons, b) == "fail"]
+    soft = [(jsons, b) for b in bad if cls(jsons, b) in ("model", "oracle")]
+    info = len([b for b in bad if cls(jsons, b) == "info"])
+    widened = None
+    if not fails and (d.items or soft) and spec.get("widen"):
+        # something broke without a failing input: look harder before saying so
+        ctx.log("no failing input yet for: %s — widened run" % "; ".join(d.names() + ["%d verdict-2 case(s)" % len(soft)] * bool(soft)))
+        w = run_and_judge(spec["widen"](4), ctx.seed + 7919, "_wide")
+        if w is not None:
+            wterms, wjsons, wbad, wnt = w
+            widened = {"cases": len(wjsons), "seed": ctx.seed + 7919,
+                       "verdict_1": len([b for b in wbad if cls(wjsons, b) == "fail"])}
+            fails = [(wjsons, b) for b in wbad if cls(wjsons, b) == "fail"]
+            soft += [(wjsons, b) for b in wbad if cls(wjsons, b) in ("model", "oracle")]
+    ctx.cov["widened_run"] = widened
+    shape = spec["shape"]
+    fails = spread(fails, lambda fb: shape(fb[0][fb[1][0]]))
+    also = d.names()
+    for js, (i, code) in fails:
+        j = js[i]
+        if ctx.nreplay < 3 and spec["minimise"](j):
+            sh = shape(j)
+            _, mj = minimise(ctx, binp, spec["header"], spec["case_type"], spec["judge"], spec["to_input"](j),
+                             code, spec["variants"], spec["size"], keep=lambda c: shape(c) == sh,
+                             **spec.get("min_kw", {}))
+            if mj is not None:
+                mj["kind"] = j["kind"] + "/minimised"
+                j = mj
+        rep = {"case": spec["view"](j), "input": spec["to_input"](j), "verdict": spec["verdict"](code),
+               "replay_cmd": "./check %s --replay <this file>" % ctx.pid}
+        if also:
+            rep["also_broken_in_this_run"] = also
+        ctx.report(rep, spec["features"](j), failing_input=True)
+    if fails:
+        if also or soft:
+            ctx.cov["not_reported_separately"] = {"unchecked": also, "verdict_2_or_oracle_cases": len(soft)}
+    else:
+        for replay, feats in d.items:
+            ctx.report(replay, feats, failing_input=False)
+        for js, (i, code) in soft[:3]:
+            j = js[i]
+            kind = cls(js, (i, code))
+            ctx.report({"case": spec["view"](j), "input": spec["to_input"](j),
+                        "unchecked": "correspondence model = implementation" if kind == "model" else
+                                     "generator's by-construction expectation = specification",
+                        "verdict": spec["verdict"](code)},
+                       dict(spec["features"](j), kind=kind), failing_input=False)
+        for _ in soft[3:]:
+            ctx.violations.append("(not written)")
+    return terms, jsons, bad, nt, info, widened
